@@ -81,6 +81,7 @@ class World:
         self.seam = fsfault.FaultFS(clock, self.cache_dir, config['bufsize'])
         self.seam.on_step = self.reader_hook
         self.seam.on_list = self.on_list
+        self.seam.on_race = self.on_race
         # agent
         self.agent_alive = False
         self.agent_client = None
@@ -685,6 +686,14 @@ class World:
         self.view.pop(name, None)
         self.ext_removed.add(name)
         self.ext_removed_ever.add(name)
+
+    def on_race(self, name):
+        """The entry the agent is about to remove is removed by someone else
+        first (appcfgmgr dropping an entry it cannot configure)."""
+        self.view.pop(name, None)
+        self.ext_removed.add(name)
+        self.ext_removed_ever.add(name)
+        self.probes['removal_raced'] = self.probes.get('removal_raced', 0) + 1
 
     def op_settle(self, _op):
         """Reach probe: is the system quiescent and consistent now?"""
@@ -1486,9 +1495,12 @@ class CacheSim(enginemod.Engine):
             'lost replies on single reads; agent killed, session expired, '
             'restarted) executed without file-system faults '
             'with all oracles on; then for the sampled agent step(s) that '
-            'wrote at least one cache file, EVERY mutating file-system call '
+            'wrote at least one cache file (and one that removed several '
+            'entries at once), EVERY mutating file-system call '
             'f of that step x every kind {crash before, crash after, ENOSPC, '
-            'EIO, short write (write calls only)}, and EVERY read call r of '
+            'EIO, short write (write calls only), the entry removed by '
+            'another process just before the call (unlink calls only)}, '
+            'and EVERY read call r of '
             'the agent\'s ZooKeeper client in that step (get of the '
             'placement record, get of /scheduled/<inst>, exists, '
             'get_children) x {ConnectionLoss, OperationTimeoutError: reply '
@@ -1656,8 +1668,12 @@ class CacheSim(enginemod.Engine):
         for j in sorted(traces):
             nrep = sum(1 for c, b, _n in traces[j]
                        if c == 'replace' and _is_instance_file(b))
-            if nrep:
-                cands.append((j, nrep, len(traces[j])))
+            # ... or removed several at once (an entry may be removed by
+            # someone else first)
+            nrm = sum(1 for c, b, _n in traces[j]
+                      if c == 'unlink' and _is_instance_file(b))
+            if nrep or nrm >= 2:
+                cands.append((j, nrep, len(traces[j]), nrm))
         max_f = config.get('max_f', 120)
         small = [c for c in cands if c[2] <= max_f]
         if small:
@@ -1682,6 +1698,10 @@ class CacheSim(enginemod.Engine):
             rest = [c[0] for c in cands if c[0] != best[0]]
             rng.shuffle(rest)
             picks.extend(rest[:max(0, config.get('picks', 1) - 1)])
+            # and one that removed several entries at once
+            multi = [c[0] for c in cands if c[3] >= 2 and c[0] not in picks]
+            if multi:
+                picks.append(multi[0])
             for j in sorted(picks):
                 bad = self._enumerate(config, seed, history, j, traces[j],
                                       total, digests, keep_log,
@@ -1700,6 +1720,9 @@ class CacheSim(enginemod.Engine):
         for f, (call, _base, nbytes) in enumerate(trace, 1):
             for kind in fsfault.KINDS:
                 if kind == 'short' and call != 'write':
+                    continue
+                if kind == 'raced' and not (
+                        call == 'unlink' and _is_instance_file(_base)):
                     continue
                 fault = {'at': f, 'kind': kind}
                 if kind == 'short':
